@@ -252,6 +252,18 @@ func mergeValues(opts *options, old, v value) (value, Error) {
 		return v, nil
 	}
 
+	// References may lead back into the very objects that are being merged
+	// ({s: {x: "${s}"}} merged into a config holding the same): the merge of
+	// that pair is under way already, there is nothing to add to it.
+	pair := [2]*fields{subOld.fields, subV.fields}
+	if _, active := opts.merging[pair]; active {
+		return cfgSub{subOld}, nil
+	}
+	if opts.merging != nil {
+		opts.merging[pair] = struct{}{}
+		defer delete(opts.merging, pair)
+	}
+
 	// merge new and old evaluated sub-configurations and return subOld for
 	// reassigning to old key in case of subOld being generated dynamically
 	if err := mergeConfig(opts, subOld, subV); err != nil {
